@@ -235,3 +235,29 @@ CHECKS["C17"]["text"] += (" The stress recorder also runs four generated models 
 for _pid in ("C03", "C04", "C05", "C06", "C07", "C08", "C09", "C10", "C11"):
     CHECKS[_pid]["text"] += (" Every case is additionally applied twice to the same input tensor objects (second result judged) and run as a model "
                              "whose every input is a weight, twice.")
+
+# ---- rounds 8 and 9
+_TILE = (" Tiling law: cases flagged by Outcome!TileLaw (TLC evaluates 'these operands repeated k times along axis 0 give the results "
+         "repeated k times' at k = 2 and 3 before it emits the flag) are executed once more with the flagged operands repeated beyond "
+         "1.1 million elements (60 000 for Conv) and compared with the repeated expected results; generators also hold literal long "
+         "cases of 40003 elements / 20001x2.")
+_PROCS = (" A hashed subset of the cases (quick: an eighth, thorough: half) is replayed again under GOMAXPROCS=1 (thorough: also 3): a "
+          "result does not depend on the number of usable cores. Every operator-level case is also applied with an input list whose spare "
+          "capacity holds stale tensors, and (equal operands) with both operands being one tensor object.")
+for _pid in ("C03", "C04", "C05", "C07", "C08", "C09", "C10", "C11", "C14"):
+    CHECKS[_pid]["text"] += _TILE
+    CHECKS[_pid]["technique"] += "; tiling law evaluated by TLC and executed at a million elements"
+for _pid in ("C03", "C04", "C05", "C06", "C07", "C08", "C09", "C10", "C11", "C14"):
+    CHECKS[_pid]["text"] += _PROCS
+CHECKS["C02"]["text"] += (" Between two calls the caller may refill, in place, a tensor it passed before (Interp!CallerWrite) and pass the same "
+                          "object again; before the first call every declared input gets a tensor.")
+CHECKS["C12"]["text"] += (" A second Model is built from the SAME ModelProto object and the proto is compared with a copy taken before the first "
+                          "load; dims beyond 2^31 (element counts whose product or byte size wraps around 2^64) are spelled in base 65536.")
+CHECKS["C13"]["text"] += (" Unspecified dimensions are also written as an explicit dim_value 0 and as an empty dim_param, dimensions may carry an "
+                          "ONNX denotation, and an input name may be mapped to a nil tensor (= not supplied).")
+CHECKS["C15"]["text"] += " The tensor at a gate position has shape [1], [0], [2,0], [] or [2,3]: the verdict does not depend on it."
+CHECKS["C17"]["text"] += (" Generated models with anonymous Constant nodes and with views (Transpose/Reshape/Flatten) of shared weights take part in "
+                          "both stresses; Runs that are refused inside an operator take part too, their error text compared with the text of the "
+                          "same Run alone.")
+CHECKS["C18"]["text"] += (" Opset versions beyond 32 bits (w*2^31+v) and unknown-operator nodes whose inputs do not resolve are part of the "
+                          "structured space.")
